@@ -188,6 +188,75 @@ func checkSecurityGeneratorState(c *core.Ctx) error {
 	if gs == nil {
 		r.Undecided("anchor:generateSecurities", "-", "gen.(*Generator).generateSecurities not found")
 	} else {
+		// (c) nothing of a requirement is recorded before the decision to skip it has been taken: the stores to
+		// Securities / Requirements sit in generateSecurities itself (not in the closure whose error is handed to
+		// trySkip) and are dominated by the no-error edge of the test that leads to trySkip.
+		var okEdge *ssa.BasicBlock
+		for _, call := range core.Calls(gs) {
+			if !strings.HasSuffix(core.CalleeName(call.Common()), "Generator).trySkip") {
+				continue
+			}
+			// walk up to the `err != nil` test that dominates the trySkip call
+			for b := call.Block(); b != nil; b = b.Idom() {
+				if iff, ok := b.Instrs[len(b.Instrs)-1].(*ssa.If); ok {
+					if bo, ok := iff.Cond.(*ssa.BinOp); ok && bo.Op == token.NEQ && core.IsNilConst(bo.Y) && core.IsErrorType(bo.X.Type()) && (b.Succs[0] == call.Block() || b.Succs[0].Dominates(call.Block())) {
+						okEdge = b.Succs[1]
+						break
+					}
+				}
+			}
+		}
+		if okEdge == nil {
+			r.Undecided("security-skip:shape", c.Pos(gs.Pos()), "no `if err != nil { … trySkip … }` found in generateSecurities")
+		} else {
+			nRec := 0
+			for _, fn := range core.AllFuncs(gs) {
+				for _, b := range fn.Blocks {
+					for _, in := range b.Instrs {
+						st, ok := in.(*ssa.Store)
+						if !ok {
+							continue
+						}
+						fa, ok := st.Addr.(*ssa.FieldAddr)
+						if !ok {
+							continue
+						}
+						f := fieldName(fa.X.Type(), fa.Field)
+						if f != "Securities" && f != "Requirements" {
+							continue
+						}
+						nRec++
+						if fn == gs && (okEdge == b || okEdge.Dominates(b)) {
+							r.Pass(fmt.Sprintf("generateSecurities records %s only after the requirement was resolved completely", f))
+						} else {
+							r.Fail("security-recorded-before-skip:"+f, c.Pos(st.Pos()), fmt.Sprintf("generateSecurities appends to %s before it is known whether the requirement is skipped: a requirement skipped under ignore_not_implemented leaves its earlier schemes behind (a scheme no alternative uses is still evaluated; with no alternative left the bitset has length 0 and the package does not compile)", f))
+						}
+					}
+				}
+			}
+			if nRec == 0 {
+				r.Undecided("security-record:none", c.Pos(gs.Pos()), "no store to Securities / Requirements found")
+			}
+		}
+		// (d) fail closed: some test on len(r.Requirements) leads to a non-nil error return (all alternatives skipped
+		// must not yield an operation without any security check)
+		closed := false
+		for _, b := range gs.Blocks {
+			iff, ok := b.Instrs[len(b.Instrs)-1].(*ssa.If)
+			if !ok || !mentionsLenOfField(iff.Cond, "Requirements", 0) {
+				continue
+			}
+			for _, s := range b.Succs {
+				if ret, ok := s.Instrs[len(s.Instrs)-1].(*ssa.Return); ok && len(ret.Results) == 2 && !core.IsNilConst(ret.Results[1]) {
+					closed = true
+				}
+			}
+		}
+		if closed {
+			r.Pass("generateSecurities reports an error when no requirement survived skipping")
+		} else {
+			r.Fail("security-fail-open", c.Pos(gs.Pos()), "generateSecurities never turns \"no requirement survived skipping\" into an error: when every alternative is skipped the operation is generated with no security check at all")
+		}
 		n := 0
 		for _, fn := range core.AllFuncs(gs) {
 			for _, call := range core.Calls(fn) {
@@ -1124,4 +1193,32 @@ func checkRequirementSkip(c *core.Ctx, r *core.Rule, prog *core.Prog) {
 			}
 		}
 	}
+}
+
+
+// mentionsLenOfField: the condition contains len(x.<field>).
+func mentionsLenOfField(v ssa.Value, field string, depth int) bool {
+	if depth > 6 {
+		return false
+	}
+	switch x := v.(type) {
+	case *ssa.BinOp:
+		return mentionsLenOfField(x.X, field, depth+1) || mentionsLenOfField(x.Y, field, depth+1)
+	case *ssa.UnOp:
+		if fa, ok := x.X.(*ssa.FieldAddr); ok && x.Op == token.MUL {
+			return fieldName(fa.X.Type(), fa.Field) == field
+		}
+		return mentionsLenOfField(x.X, field, depth+1)
+	case *ssa.Call:
+		if b, ok := x.Common().Value.(*ssa.Builtin); ok && b.Name() == "len" {
+			return mentionsLenOfField(x.Common().Args[0], field, depth+1)
+		}
+	case *ssa.Phi:
+		for _, e := range x.Edges {
+			if mentionsLenOfField(e, field, depth+1) {
+				return true
+			}
+		}
+	}
+	return false
 }
